@@ -31,6 +31,7 @@ CONSTANTS NNames,       \* size of the parameter-name alphabet (2: {a, b}; 3: {a
           VARIADIC,     \* _griffe.diff._VARIADIC                (extracted from the repo)
           OldDomain,    \* "all" | "canon" | "pick": which old signatures Init chooses from
           Pick,         \* "pick": set of indices into SigSeq (seeded sample drawn by the driver)
+          Routes,       \* how the NEW Function's parameters come to exist: subset of {"visit", "inplace"}
           Emit          \* BOOLEAN: print the signature table and every pair as CASE lines
 
 NameSeq == <<"a", "b", "c">>                 \* canonical order of names
@@ -185,6 +186,26 @@ OldIdx == IF OldDomain = "all" THEN 1..N
           ELSE IF OldDomain = "canon" THEN {i \in 1..N : Canon(SigSeq[i])}
           ELSE Pick \cap (1..N)
 
+\* ---- the Parameters container as a little machine (models.Parameters: a list; by-name access scans it) ----
+\* Route "visit": the new signature is loaded from its own source.  Route "inplace": a copy of the OLD
+\* parameters is looked up by name (`name in params`, `params[name]` - what stub merging, docstring parsing
+\* or an earlier diff do) and then edited through the container API into the new signature, by integer
+\* index: params[i] = p, del params[i], params.add(p).  Lookups do not change the container; the finder
+\* must see exactly the resulting list whatever the history was.
+Lesser(a, b) == IF a < b THEN a ELSE b
+OpsFor(old, new) ==
+  [i \in 1..Len(old) |-> [op |-> "lookup", i |-> i]]                                   \* by the name of old[i]
+  \o SelectSeq([i \in 1..Lesser(Len(old), Len(new)) |-> [op |-> "set", i |-> i]], LAMBDA o : old[o.i] # new[o.i])
+  \o [k \in 1..(IF Len(old) > Len(new) THEN Len(old) - Len(new) ELSE 0) |-> [op |-> "del", i |-> Len(new) + 1]]
+  \o [k \in 1..(IF Len(new) > Len(old) THEN Len(new) - Len(old) ELSE 0) |-> [op |-> "add", i |-> Len(old) + k]]
+Apply(s, o, new) ==                              \* one container call; the operand of set/add is new[o.i]
+  CASE o.op = "set" -> [s EXCEPT ![o.i] = new[o.i]]
+    [] o.op = "del" -> SubSeq(s, 1, o.i - 1) \o SubSeq(s, o.i + 1, Len(s))
+    [] o.op = "add" -> Append(s, new[o.i])
+    [] OTHER -> s                                \* lookup
+RECURSIVE ApplyAll(_, _, _, _)
+ApplyAll(s, os, k, new) == IF k > Len(os) THEN s ELSE ApplyAll(Apply(s, os[k], new), os, k + 1, new)
+
 \* ---- state -----------------------------------------------------------------------------------------
 VARIABLES oi, ni,        \* the case: indices of the old / new signature in SigSeq (ni = 0: not chosen yet)
           pc,            \* "old" | "done"
@@ -192,20 +213,26 @@ VARIABLES oi, ni,        \* the case: indices of the old / new signature in SigS
           breaking,      \* Ref: some call binds against old and not against new
           witness,       \* one such call (<<>> when there is none)
           must, differ,  \* Ref: obligations of clause (ii), names allowed by clause (iv)
-          cause          \* defect family of the pair ("none" outside the known families)
-vars == <<oi, ni, pc, brk, breaking, witness, must, differ, cause>>
+          cause,         \* defect family of the pair ("none" outside the known families)
+          route, ops,    \* how the new parameters were built; the container history of route "inplace"
+          built          \* the parameter list the finder is given as "new" (result of the history)
+vars == <<oi, ni, pc, brk, breaking, witness, must, differ, cause, route, ops, built>>
 
 Init ==
   /\ oi \in OldIdx /\ ni = 0 /\ pc = "old"
   /\ brk = {} /\ breaking = FALSE /\ witness = <<>> /\ must = {} /\ differ = {} /\ cause = "none"
+  /\ route = "none" /\ ops = <<>> /\ built = <<>>
 
 \* find_breaking_changes(old module, new module) on one public function f, and CPython on the same pair
-Diff(n) ==
+Diff(n, r) ==
   /\ pc = "old"
   /\ LET old == SigSeq[oi]
          new == SigSeq[n]
          lost == BindTable[oi] \ BindTable[n]
-     IN /\ brk' = Breakages(old, new)
+         history == IF r = "inplace" THEN OpsFor(old, new) ELSE <<>>
+         given == IF r = "inplace" THEN ApplyAll(old, history, 1, new) ELSE new
+     IN /\ route' = r /\ ops' = history /\ built' = given
+        /\ brk' = Breakages(old, given)
         /\ breaking' = (lost # {})
         /\ witness' = IF lost = {} THEN <<>> ELSE CHOOSE c \in lost : TRUE
         /\ must' = MustReport(old, new)
@@ -214,7 +241,7 @@ Diff(n) ==
   /\ ni' = n /\ pc' = "done"
   /\ UNCHANGED oi
 
-Next == \E n \in 1..N : Diff(n)
+Next == \E n \in 1..N, r \in Routes : Diff(n, r)
 Spec == Init /\ [][Next]_vars
 
 \* ---- the property ---------------------------------------------------------------------------------
@@ -226,6 +253,8 @@ I_NoSilentBreak_Clean == (Done /\ breaking /\ cause \notin KnownCauses) => brk #
 I_NoSilentBreak == (Done /\ breaking) => brk # {}
 \* (ii) moved positional parameter, changed default, optional -> required are always reported
 I_AlwaysReported == Done => must \subseteq brk
+\* whatever the container history, the finder is given the new signature (so (i)-(iv) do not depend on the route)
+I_RouteIndependent == Done => built = SigSeq[ni]
 \* (iii) identical signatures produce no report
 I_IdenticalSilent == (Done /\ oi = ni) => brk = {}
 \* (iv) every reported breakage names a parameter that actually changed
@@ -243,5 +272,5 @@ ASSUME Emit => \A i \in 1..N :
 EmitPair ==
   (Emit /\ Done) =>
      PrintT(<<"CASE", ToJson([t |-> "pair", o |-> oi, n |-> ni, b |-> brk, x |-> breaking, w |-> witness,
-                              m |-> must, d |-> differ, c |-> cause])>>)
+                              m |-> must, d |-> differ, c |-> cause, r |-> route, ops |-> ops])>>)
 =============================================================================
